@@ -328,6 +328,10 @@ stage("tv_iir_pm_fir", extra=("param",),
    }[p["how"]]((.5 / (1 - S(P, i[1]) * P.lf.z ** -1))
                if p["how"] != "1-lowpass" else None, P.lf.z)(i[0]),
    lambda i, p: M.m_lockstep(i)))
+stage("tv_fractional_delay", extra=("param",),
+      params=lambda W: {"d": W.pick("fd", [1.5, 0.25, 2.75])})(
+  (lambda P, i, p: (S(P, i[1]) * P.lf.z ** -p["d"] + 1).linearize()(i[0]),
+   lambda i, p: M.m_lockstep(i)))
 stage("tv_gain_a0", extra=("param",))(
   (lambda P, i, p: P.lf.ZFilter([1, 1], [S(P, i[1]), .5])(i[0]),
    lambda i, p: M.m_lockstep(i)))
